@@ -5,6 +5,7 @@ import BpProofs.SpecPack
 import BpProofs.SpecEnc
 import BpProofs.SpecPerm2
 import BpProofs.SpecPerm3
+import BpProofs.SpecLink
 /-
   C02 — wire interoperability with the reference protobuf implementation.
 
@@ -20,6 +21,18 @@ import BpProofs.SpecPerm3
   `Targets d pf idx f` (the record's number is declared by field `idx` = `f` of the class and
   its wire type fits), `IsRepScalar f`, `WfState d st` (slot typing; holds for a fresh
   instance, `wf_fresh`, and is kept by every decode step, `wf_step`).
+
+  LINK TO THE INDEPENDENT SPEC DECODER (`BpModel/Spec.lean`; section at the end of this file,
+  helper files `BpProofs/SpecLink*.lean`):
+    * `framing_agree` / `framing_accepts`: `Spec.parse` and `loadFields` accept the same byte
+      strings and yield the same records — all inputs, no hypothesis, no exception;
+    * `load_complete`: for every schema with `GoodSchema S` (decidable) and every byte string
+      with `narrow32` (decidable: no over-wide uint32 / sint32 varint) that the model decoder
+      accepts, `Spec.decodeBytes` gives the abstraction of the model's message — ALL field
+      kinds (scalars singular / optional / oneof / repeated / packed, nested messages to any
+      depth, maps, wrappers, Timestamp / Duration);
+    * `dump_sound` is in `BpProofs/Props/C02Dump.lean` (it needs the C01 files, which cannot be
+      imported together with the C02 helper files: both define `Bp.foldFields_append`).
 -/
 namespace Bp.C02
 open Bp Gen
@@ -326,4 +339,165 @@ example : (parse T 0 [0x20, 0x09, 0x48, 0x01, 0x08, 0x05]).bind (dumpVal T) = .o
 example : Spec.parse [0x88, 0x80, 0x00, 0x85, 0x80, 0x80, 0x00] = Spec.parse [0x08, 0x05] := by decide
 example : (Spec.decodeBytes T 0 [0x1a, 0x01, 0x41, 0x20, 0x09]).map (·.sel) = some [some 3] := by decide
 
+
+/-! ## link to the independent spec-level decoder (`BpModel/Spec.lean`) -/
+
+open Bp.Link in
+/-- **FRAMING AGREEMENT.**  For every list of naturals `bs` (no `WfBytes` needed), the
+    spec-level splitter `Spec.parse`, written from the encoding document, accepts `bs` iff the
+    model of `load_fields` does, and then the records correspond one to one: same field
+    number, wire type, varint value (low 64 bits of a 1..10-byte varint, padded or not) and
+    payload.  There is no input on which they differ: groups (wire types 3 / 4), wire types
+    6 / 7, field number 0, truncated input and varints of more than 10 bytes are rejected by
+    both (witnesses below). -/
+theorem framing_agree (bs : Bytes) :
+    Spec.parse bs = okOpt ((loadFields bs).map fun pfs => pfs.map toRec) := Bp.framing_agree bs
+
+theorem framing_accepts (bs : Bytes) : (Spec.parse bs).isSome = (loadFields bs).isOk := Bp.framing_accepts bs
+
+open Bp.Link in
+/-- **`load_complete`: the model decoder agrees with the spec decoder.**
+
+    For every schema `S` with `GoodSchema S` and every byte string `bs` with
+    `narrow32 S (bs.length + 1) d bs`: if `Cls().parse(bs)` (model) returns `v`, then
+    `Spec.decodeBytes S c bs` returns an abstract message `a` whose normal form is the
+    abstraction of `v` — same class, same value in every declared field (at every nesting
+    depth), same oneof selection.  The spec decoder never fails where the model succeeds.
+
+    Field kinds covered: ALL — scalar fields of the 16 scalar types, singular, proto3-optional,
+    oneof members, repeated (unpacked, packed, mixed, split chunks); nested messages singular /
+    optional / oneof member / repeated, to any depth, recursive classes included; maps (scalar,
+    message, Timestamp / Duration values); wrappers; Timestamp / Duration.
+
+    Guards (both decidable, `Bool`-valued):
+    * `GoodSchema S` = `wfSchemaTB S` (C17: repeated fields not `optional`, message fields name
+      existing classes, wrappers wrap scalars, map keys scalar, map values not maps) ∧ distinct
+      field numbers per class ∧ `goodFieldB` (repeated / map fields in no oneof; a wrapper
+      annotation only on a plain message field).  Outside it the decoders DO differ: `WX1`–`WX3`.
+    * `narrow32`: no `uint32` / `sint32` position holds a varint ≥ 2^32, at any depth.  Outside
+      it the decoders DO differ (`WX0`): the spec — like the reference — keeps the low 32
+      bits, betterproto keeps all 64.  Not a legal encoding of a 32-bit value; no encoder
+      produces it.
+    Abstraction (`nv`, applied to both sides): `None` of an unset proto3-optional field = `ph`
+    ("nothing on the wire"); float32 up to NaN quieting (`WX4`); retained unknown bytes dropped.
+    Inputs the model REJECTS but the spec decodes (by ignoring the record) are outside the
+    statement: invalid UTF-8, malformed nested / packed payloads, out-of-range Timestamp /
+    Duration (`WX5`; C17's topic). -/
+theorem load_complete (S : Schema) (hS : GoodSchema S) (c : Nat) (d : MsgD) (hd : S[c]? = some d)
+    (bs : Bytes) (v : Val) (hn : narrow32 S (bs.length + 1) d bs = true) (h : parse S c bs = .ok v) :
+    ∃ a, Spec.decodeBytes S c bs = some a ∧ a.nrm = absOf v :=
+  load_complete_bytes S hS c d hd bs v hn h
+
+open Bp.Link in
+/-- `load_complete` with NO guard on the input, for every schema that uses `uint32` / `sint32`
+    nowhere (field, map key / value, wrapper: `noNarrowB`, decidable): every byte string the
+    model decoder accepts is decoded by the spec decoder to the same message -/
+theorem load_complete_all_inputs (S : Schema) (hS : GoodSchema S) (hN : noNarrowB S = true)
+    (c : Nat) (d : MsgD) (hd : S[c]? = some d) (bs : Bytes) (v : Val) (h : parse S c bs = .ok v) :
+    ∃ a, Spec.decodeBytes S c bs = some a ∧ a.nrm = absOf v :=
+  load_complete_bytes S hS c d hd bs v (narrow32_of_noNarrow_class S hN c d hd _ bs) h
+
+open Bp.Link in
+/-- the same at the level of one message class and one nested decoder pair, with the model's
+    fuel `n` arbitrary: what `load_complete` is proved from (nested payloads included) -/
+theorem load_complete_fuel (S : Schema) (hS : GoodSchema S) (n c : Nat) (d : MsgD) (hd : GoodD S d)
+    (bs : Bytes) (st : MState) (hn : narrow32 S n d bs = true) (h : loadInto S n d (freshState d) bs = .ok st) :
+    ∃ a, Spec.subDecoder S n c d bs = some a ∧ a.nrm = absState c st := by
+  obtain ⟨m, hm1, hm2, hsim⟩ := loadInto_sim S hS n bs c d st hd hn h
+  exact ⟨m, hm1, by simp only [Spec.AbsMsg.nrm, absState, hm2, hsim.slots, hsim.sel]⟩
+
+/-! ### witnesses: the guards are needed, the abstraction is needed (kernel evaluation) -/
+
+section Witnesses
+open Bp.Link
+
+-- non-vacuity: the schema `T` above meets the guard; a message with every kind of `T`
+example : GoodSchema T := by decide
+example : noNarrowB [{ fields := [{ name := "a", num := 1, ty := .int32 }, { name := "s", num := 2, ty := .string, repeated := true }] }] = true := by decide
+example : narrow32 T 11 T[0] [0x08, 0x05, 0x10, 0x02, 0x12, 0x02, 0x06, 0x08, 0x1a, 0x01, 0x41] = true := by decide
+example : (parse T 0 [0x08, 0x05, 0x10, 0x02, 0x12, 0x02, 0x06, 0x08, 0x1a, 0x01, 0x41]).map absOf
+    = .ok { cls := 0, fields := [.int 5, .list [.int 1, .int 3, .int 4], .byt [0x41], .ph], sel := [some 2] } := by rfl
+example : (Spec.decodeBytes T 0 [0x08, 0x05, 0x10, 0x02, 0x12, 0x02, 0x06, 0x08, 0x1a, 0x01, 0x41]).map (·.nrm)
+    = some { cls := 0, fields := [.int 5, .list [.int 1, .int 3, .int 4], .byt [0x41], .ph], sel := [some 2] } := by rfl
+
+/-- nested message, map, wrapper, Timestamp, optional: a schema inside the guard -/
+def TN : Schema :=
+  [{ fields := [{ name := "sub", num := 1, ty := .message, kind := .user 1 },
+                { name := "m", num := 2, ty := .map, mapK := .string, mapV := .message, mapVKind := .user 1 },
+                { name := "w", num := 3, ty := .message, wraps := some .uint32 },
+                { name := "t", num := 4, ty := .message, kind := .timestamp },
+                { name := "o", num := 5, ty := .sint32, optional := true }] },
+   { fields := [{ name := "v", num := 1, ty := .uint32, optional := true }] }]
+example : GoodSchema TN := by decide
+-- sub = {v = 7}; m = {"k": Sub()} (entry without value); w = 9; t = 1 s; o unset
+def bsN : Bytes := [0x0a, 0x02, 0x08, 0x07, 0x12, 0x03, 0x0a, 0x01, 0x6b, 0x1a, 0x02, 0x08, 0x09, 0x22, 0x02, 0x08, 0x01]
+example : narrow32 TN (bsN.length + 1) TN[0] bsN = true := by decide
+example : (parse TN 0 bsN).map absOf
+    = .ok { cls := 0, fields := [.msg 1 [.int 7] true [] [], .dict [.str [0x6b]] [.msg 1 [.ph] false [] []],
+                                 .int 9, .ts 1000000, .ph], sel := [] } := by rfl
+example : (Spec.decodeBytes TN 0 bsN).map (·.nrm)
+    = some { cls := 0, fields := [.msg 1 [.int 7] true [] [], .dict [.str [0x6b]] [.msg 1 [.ph] false [] []],
+                                  .int 9, .ts 1000000, .ph], sel := [] } := by rfl
+-- … where the abstraction matters: the spec's default for the missing map value is `Cls()`
+-- with its optional slot `None`, the model's slot after decoding `o` unset is `None` too
+example : (Spec.decodeBytes TN 0 bsN).map (·.fields.getD 1 .ph) = some (.dict [.str [0x6b]] [.msg 1 [.none] false [] []]) := by rfl
+
+/-- WX0 — DISAGREEMENT outside `narrow32`: an over-wide `uint32` varint (2^32, 5 bytes) -/
+def WX0 : Schema := [{ fields := [{ name := "u", num := 1, ty := .uint32 }] }]
+example : GoodSchema WX0 := by decide
+example : narrow32 WX0 7 WX0[0] [8, 128, 128, 128, 128, 16] = false := by decide
+example : parse WX0 0 [8, 128, 128, 128, 128, 16] = .ok (.msg 0 [.int 4294967296] true [] []) := by rfl
+example : Spec.decodeBytes WX0 0 [8, 128, 128, 128, 128, 16] = some { cls := 0, fields := [.int 0], sel := [] } := by rfl
+
+/-- WX1 — DISAGREEMENT outside `GoodSchema` (duplicate field number): betterproto's
+    `field_name_by_number` keeps the LAST declaration, the spec takes the first -/
+def WX1 : Schema := [{ fields := [{ name := "a", num := 1, ty := .int32 }, { name := "b", num := 1, ty := .string }] }]
+example : ¬ GoodSchema WX1 := by decide
+example : parse WX1 0 [8, 1] = .ok (.msg 0 [.ph, .ph] true [8, 1] []) := by rfl
+example : Spec.decodeBytes WX1 0 [8, 1] = some { cls := 0, fields := [.int 1, .ph], sel := [] } := by rfl
+
+/-- WX2 — outside `GoodSchema` (a repeated field inside a oneof, which protobuf forbids):
+    betterproto's `__setattr__` selects it, the spec leaves the selection alone -/
+def WX2 : Schema := [{ fields := [{ name := "r", num := 1, ty := .int32, repeated := true, group := some 0 }], nGroups := 1 }]
+example : ¬ GoodSchema WX2 := by decide
+example : parse WX2 0 [8, 1] = .ok (.msg 0 [.list [.int 1]] true [] [some 0]) := by rfl
+example : Spec.decodeBytes WX2 0 [8, 1] = some { cls := 0, fields := [.list [.int 1]], sel := [none] } := by rfl
+
+/-- WX3 — outside `GoodSchema` (a wrapper annotation on a Timestamp field): betterproto looks
+    at the class first (datetime), the spec at the annotation first (wrapped int32) -/
+def WX3 : Schema := [{ fields := [{ name := "t", num := 1, ty := .message, kind := .timestamp, wraps := some .int32 }] }]
+example : ¬ GoodSchema WX3 := by decide
+example : parse WX3 0 [10, 2, 8, 5] = .ok (.msg 0 [.ts 5000000] true [] []) := by rfl
+example : Spec.decodeBytes WX3 0 [10, 2, 8, 5] = some { cls := 0, fields := [.int 5], sel := [] } := by rfl
+
+/-- WX4 — absorbed by the abstraction: a float32 signalling NaN (0x7F800001) comes back from
+    `struct.unpack` as the quiet NaN 0x7FC00001; the spec keeps the wire bits -/
+def WX4 : Schema := [{ fields := [{ name := "f", num := 1, ty := .float }] }]
+example : parse WX4 0 [13, 1, 0, 128, 127] = .ok (.msg 0 [.f32 0x7FC00001] true [] []) := by rfl
+example : Spec.decodeBytes WX4 0 [13, 1, 0, 128, 127] = some { cls := 0, fields := [.f32 0x7F800001], sel := [] } := by rfl
+example : (Spec.decodeBytes WX4 0 [13, 1, 0, 128, 127]).map (·.nrm) = some { cls := 0, fields := [.f32 0x7FC00001], sel := [] } := by rfl
+
+/-- WX5 — the model REJECTS, the spec ignores the record (outside the statement): invalid UTF-8 -/
+def WX5 : Schema := [{ fields := [{ name := "s", num := 1, ty := .string }] }]
+example : parse WX5 0 [10, 1, 255] = .error .unicode := by rfl
+example : Spec.decodeBytes WX5 0 [10, 1, 255] = some { cls := 0, fields := [.ph], sel := [] } := by rfl
+
+-- framing: both reject groups, wire type 6, field number 0, truncated input, an 11-byte varint
+example : Spec.parse [0x0b] = none ∧ (loadFields [0x0b]).isOk = false := by decide
+example : Spec.parse [0x0e] = none ∧ (loadFields [0x0e]).isOk = false := by decide
+example : Spec.parse [0x00, 0x00] = none ∧ (loadFields [0x00, 0x00]).isOk = false := by decide
+example : Spec.parse [0x0a, 0x02, 0x01] = none ∧ (loadFields [0x0a, 0x02, 0x01]).isOk = false := by decide
+example : Spec.parse [0x08, 128, 128, 128, 128, 128, 128, 128, 128, 128, 128, 0] = none
+    ∧ (loadFields [0x08, 128, 128, 128, 128, 128, 128, 128, 128, 128, 128, 0]).isOk = false := by decide
+-- … and both read a "byte" ≥ 256 the same way (no `WfBytes` needed)
+example : Spec.parse [0x08, 300, 1] = some [{ num := 1, wt := 0, vint := 172, payload := [] }] := by decide
+example : (loadFields [0x08, 300, 1]).map (·.map toRec) = .ok [{ num := 1, wt := 0, vint := 172, payload := [] }] := by decide
+
+end Witnesses
+
 end Bp.C02
+
+#print axioms Bp.C02.framing_agree
+#print axioms Bp.C02.load_complete
+#print axioms Bp.C02.load_complete_fuel
+#print axioms Bp.C02.load_complete_all_inputs
